@@ -10,16 +10,16 @@ STUBS = ["writer API: records the chunk per descriptor, refuses non-increasing k
          "qsort: any permutation of the array that is sorted by the caller's comparator (ties in any order)",
          "mkstemp/unlink/close: ghost descriptor and temp-file tables; sprintf/getpid fixed",
          "INITIAL_SORTER_VEC_SIZE capacity hint 4 instead of 131072; max_memory written white-box below the setter's 10 MiB clamp"]
-US = {"strlen.0": 24, "strdup.0": 24, "strcpy.0": 24, "verif_sprintf.0": 24, "memcpy.0": 24}
+US = {"verif_mkstemp.0": 8, "verif_mkstemp.1": 8, "verif_mkstemp.2": 42, "strlen.0": 24, "strdup.0": 24, "strcpy.0": 24, "verif_sprintf.0": 24, "memcpy.0": 24}
 
 
 def keys_define(keys):
     return "{" + ",".join("{%d,%d}" % (len(k), k[0] if k else 0) for k in keys) + "}"
 
 
-def sq(name, keys, maxmem=40, pool=0, mergefail=0, scen=0, entry="h_sorter", witness=False, deliver=3):
+def sq(name, keys, maxmem=40, pool=0, mergefail=0, scen=0, entry="h_sorter", witness=False, deliver=3, slash=0):
     d = {"NA": len(keys), "AKEYS": keys_define(keys) if keys else "{{0,0}}", "MAXMEM": maxmem, "POOL": pool,
-         "MERGEFAIL": mergefail, "SCEN": scen, "DELIVER": deliver}
+         "MERGEFAIL": mergefail, "SCEN": scen, "DELIVER": deliver, "TMPDIR_SLASH": slash}
     smp = {"adds": [k.decode("latin1") for k in keys], "max_memory": maxmem, "pool": bool(pool), "pool_delivery": ["at once", "at the next pool call", "only at result_handler_destroy", "solver-chosen per job"][deliver] if pool else None, "merge_fails_on_call": mergefail,
            "scenario": ["iterate", "destroy before iterating", "add/write after iter", "mtbl_sorter_write"][scen],
            "values": "symbolic byte per add; qsort tie order and pool delivery points nondeterministic"}
